@@ -4381,13 +4381,10 @@ impl<'a, E: quiver_core::effects::Effect> Compiler<'a, E> {
             let has_vars_result = typing::contains_variables(result_id, &*self.program);
 
             let result_type = if has_vars_param || has_vars_result {
-                // Perform unification to bind type variables
-                let mut bindings = HashMap::new();
-
-                typing::unify(&mut bindings, param_id, arg_type, self.program)?;
-
-                // Substitute bindings in the result type
-                typing::substitute(result_id, &bindings, self.program)
+                // Perform unification to bind type variables, and substitute the bindings in the
+                // result type
+                typing::unify_call(param_id, Some(result_id), arg_type, self.program)?
+                    .unwrap_or(result_id)
             } else {
                 // No type variables - just check compatibility
                 if !quiver_core::types::is_compatible(arg_type, param_id, &*self.program) {
@@ -4592,8 +4589,7 @@ impl<'a, E: quiver_core::effects::Effect> Compiler<'a, E> {
             return Ok(!self.is_nil(arg_type));
         }
         if typing::contains_variables(param_type, &*self.program) {
-            let mut bindings = HashMap::new();
-            typing::unify(&mut bindings, param_type, arg_type, self.program)?;
+            typing::unify_call(param_type, None, arg_type, self.program)?;
         } else if !quiver_core::types::is_compatible(arg_type, param_type, &*self.program) {
             return Err(Error::TypeMismatch {
                 expected: format!(
